@@ -314,4 +314,9 @@ def r9_5(ctx):
     borrow(ctx, r1_1, "R1.1", "R9.5", " [needed for 'rendering at the reported maximum never exceeds it': a container whose measure is capped at W must also hand its child at most W when rendering]")
 
 
-RULES = [r9_1, r9_2, r9_3, r9_4, r9_5]
+def r9_6(ctx):
+    from .common import memo_rule
+    memo_rule(ctx, "R9.6", ["text", "measure", "padding", "panel", "constrain", "styled", "align", "containers"], 0)
+
+
+RULES = [r9_1, r9_2, r9_3, r9_4, r9_5, r9_6]
